@@ -2,7 +2,9 @@
 
 mod bcmc;
 mod common;
+mod gcprog;
 mod gen;
+mod heapmc;
 mod outcome;
 mod pool;
 mod printer;
